@@ -13,7 +13,7 @@ ALL = ["version", "verack", "ping", "pongOK", "pongBad", "protoconf", "reject", 
 HDR = [m for m in ALL if m.startswith("hdr")]
 # messages a conformant, verified peer may send without the connection being closed by design
 CONFORMANT_READY = ["ping", "pongOK", "reject", "addr", "getaddr", "inv", "invBlock", "tx", "block", "extTx", "extBlock",
-                    "extOther", "other", "hdrGood", "hdrEmpty", "version", "verack"]
+                    "extOther", "other", "hdrGood", "hdrEmpty", "version", "verack", "reqblock", "blockWanted"]
 HANDSHAKE = ["version", "verack", "hdrBSV"]
 
 EXH_INV = ["ReadyImpliesVerified", "VerifyOnlyDisconnects", "NeverReadyWhenVerifyOnly", "NeverDeafWhileReady",
@@ -57,6 +57,10 @@ def plans(prop, tier):
         # repetition: the same few commands many times (queues and counters that fill up)
         P.append((False, True, HANDSHAKE, 16, ["version", "verack", "ping"], "sim", 60 if quick else 600))
         P.append((False, True, HANDSHAKE, 16, ["inv", "tx", "hdrGood", "ping", "addr"], "sim", 60 if quick else 600))
+        # block requested / not requested: wrong and wanted blocks, classic and extended framing, other traffic
+        P.append((False, True, HANDSHAKE + ["reqblock"], 3, ["block", "blockWanted", "extBlock", "extOther", "other", "tx",
+                                                              "reqblock", "ping"], "bfs", 0))
+        P.append((False, False, HANDSHAKE, 10, ["other", "extOther"], "sim", 80 if quick else 1500))
         # the messages that close by design, once, at the end
         P.append((False, True, HANDSHAKE, 2, ALL, "bfs", 0))
         if not quick:
